@@ -29,17 +29,17 @@ def step (st : DState) (line : String) : DState × String :=
   | ["reset", m] => ({ div10 := m == "div10", tree := Tree.empty }, "ok")
   | ["ins", k, v] =>
     match parseInt? k, parseInt? v with
-    | some k, some v => let (t', c) := t.insert cmp k v; ({ st with tree := t' }, "c=" ++ toString c)
+    | some k, some v => let (t', c) := t.insert cmp k v; ({ st with tree := t' }, "done cmp-ok c=" ++ toString c)
     | _, _ => (st, "bad-op")
   | ["rem", k] =>
     match parseInt? k with
     | some k =>
       let (t', c) := t.remove cmp k
-      ({ st with tree := t' }, (if t'.count != t.count then "removed" else "absent") ++ " c=" ++ toString c)
+      ({ st with tree := t' }, (if t'.count != t.count then "removed" else "absent") ++ " cmp-ok c=" ++ toString c)
     | _ => (st, "bad-op")
   | ["get", k] =>
     match parseInt? k with
-    | some k => let (r, c) := t.get cmp k; (st, showOpt r ++ " c=" ++ toString c)
+    | some k => let (r, c) := t.get cmp k; (st, showOpt r ++ " cmp-ok c=" ++ toString c)
     | _ => (st, "bad-op")
   | ["first"] => (st, showOpt t.first)
   | ["last"] => (st, showOpt t.last)
@@ -56,13 +56,13 @@ def step (st : DState) (line : String) : DState × String :=
     match parseInt? k, j.toNat? with
     | some k, some j =>
       let (s, c) := t.traverseStartingAt cmp k (visitor j) (0, [])
-      (st, showList s.2.reverse ++ " c=" ++ toString c)
+      (st, showList s.2.reverse ++ " cmp-ok c=" ++ toString c)
     | _, _ => (st, "bad-op")
   | ["rtravfrom", k, j] =>
     match parseInt? k, j.toNat? with
     | some k, some j =>
       let (s, c) := t.reverseTraverseStartingAt cmp k (visitor j) (0, [])
-      (st, showList s.2.reverse ++ " c=" ++ toString c)
+      (st, showList s.2.reverse ++ " cmp-ok c=" ++ toString c)
     | _, _ => (st, "bad-op")
   | ["dump"] => (st, dumpT t.root ++ " parents=ok")
   | ["inv"] => (st, "ok")
